@@ -289,10 +289,14 @@ func (fr *Frame) loopFrame(st *State, ms *modSet, key, phase string, n ast.Node)
 			continue
 		}
 		if strings.HasPrefix(k, "chan.") {
+			skip := false
 			for _, m := range fr.contract.Modifies {
 				if strings.TrimSpace(m) == "chan" {
-					continue
+					skip = true
 				}
+			}
+			if skip {
+				continue
 			}
 		}
 		q := "r$q" + fmt.Sprint(x.nextQ())
